@@ -589,6 +589,18 @@ theorem sockConnectRefused_spec (x : SockO) (e : EP) :
   rcases e with _ | _ | y <;>
     simp [setErr, errNewLiteral, SockO.foot, EP.foot, ErrO.foot, ob, List.erase_cons] at h ⊢ <;> grind
 
+theorem sockIoClosed_spec (x : SockO) (e : EP) :
+    Spec (x.foot ++ e.foot) (sockIoClosed x e) (fun r => r.2.1.foot ++ r.2.2.foot) := by
+  intro f s fr h
+  simp only [List.append_assoc] at h
+  have hm := sock_self_mem h
+  simp only [sockIoClosed]
+  wps
+  refine ⟨hm, ?_⟩
+  clear hm
+  rcases e with _ | _ | y <;>
+    simp [setErr, errNewLiteral, SockO.foot, EP.foot, ErrO.foot, ob, List.erase_cons] at h ⊢ <;> grind
+
 theorem sockAccept_spec (x : SockO) (e : EP) :
     Spec (x.foot ++ e.foot) (sockAccept x e) (fun r => r.2.1.foot ++ optL SockO.foot r.2.2.1 ++ r.2.2.2.foot) := by
   intro f s fr h
